@@ -38,16 +38,18 @@ OUTSIDERS = {
     # (of U only: T is referenced by U, and a reference to a name defined twice is a collision by C09)
     "namesake-roots": ["o1/tgt/U.1.0.dsdl", "o2/tgt/U.1.0.dsdl", "o3/tgt/U.1.0.dsdl", "o4/tgt/U.1.0.dsdl", "o1/tgt/X.1.0.dsdl"],
     "namesake-dep-roots": ["o1/dep/Unused.1.0.dsdl", "o2/dep/sub/E.1.0.dsdl"],
+    # the files of these outsiders are EMPTY on disk (zero bytes): even looking at their size must not matter
+    "empty-files": ["dep/Empty.1.0.dsdl", "dep/sub/Empty.2.0.dsdl", "dep/D.1.1.dsdl"],
 }
 
 
 class _Tree:
-    def __init__(self, outsiders: typing.List[str]) -> None:
+    def __init__(self, outsiders: typing.List[str], content: str = "@sealed\n") -> None:
         self.root = model.scratch_dir("c19")
         files = dict(TARGET_ROOT)
         files.update(LOOKUP_ROOT)
         for o in outsiders:
-            files[o] = "@sealed\n"
+            files[o] = content
         model.write_tree(self.root, files)
         self.outsider_paths = {(self.root / o).resolve() for o in outsiders}
         self.extra_lookups = sorted({self.root / o.split("/")[0] / o.split("/")[1] for o in outsiders
@@ -93,7 +95,7 @@ def _run(api: str, tree: _Tree, targets: typing.List[str], prints: typing.List[t
 
 def make_closure(api: str, scenario: str, targets: typing.List[str]):
     outs = OUTSIDERS[scenario]
-    tree = _Tree(outs)
+    tree = _Tree(outs, "" if scenario == "empty-files" else "@sealed\n")
     # the reference result comes from a tree WITHOUT the outsiders: what is outside the closure cannot matter
     bare = _Tree([])
     bare.extra_lookups = []
